@@ -100,6 +100,10 @@ class C05(Property):
             if ctx.out_of_time():
                 ctx.extra["incomplete"] = True
                 break
+            if i >= 25 and ctx.tier == "quick" and ctx.time_left() < 0.45 * self.quick_budget_s:
+                # heavily loaded machine: the plan is "up to n workflows", at least 25 (the corpus included)
+                ctx.notes.append(f"soft time limit: stopped after {i} of {n} planned workflows")
+                break
             if i < len(wfgen.CORPUS):
                 spec = json.loads(json.dumps(wfgen.CORPUS[i]))
                 ctx.corpus_replayed += 1
